@@ -41,6 +41,20 @@ def sort_of_type(ty):
     return None
 
 
+CURRENT_KERNEL = None   # set by the runner around each kernel
+SEEN_OPAQUE = {}        # kernel -> callees left opaque (recording mode: MIRSYM_RECORD_BOUNDARY)
+BOUNDARY = {}           # kernel -> callees that are opaque on the tree the kernels were written for
+_bpath = os.path.join(os.path.dirname(os.path.abspath(__file__)), "boundary.json")
+if os.path.exists(_bpath):
+    import json as _json
+    with open(_bpath) as _f:
+        BOUNDARY = _json.load(_f)
+
+
+def norm_callee(callee):
+    return re.sub(r"::<.*", "", callee)[:100]
+
+
 class Scalar:
     __slots__ = ("sort", "term")
 
@@ -371,6 +385,12 @@ class Executor:
         # of callees that are boundary events of the kernel and must stay opaque
         self.auto_inline = auto_inline
         self.keep_opaque = keep_opaque or []
+        # helper-following: a crate-local callee that this kernel did not meet as an opaque call on the tree it was
+        # written for (boundary.json) and that resolves by its exact name is executed instead of havocked, so that a
+        # function body moved into an extracted helper is still seen.  Off while recording the boundary.
+        self.boundary = None
+        if CURRENT_KERNEL and CURRENT_KERNEL in BOUNDARY and not os.environ.get("MIRSYM_RECORD_BOUNDARY") and not os.environ.get("MIRSYM_NO_FOLLOW"):
+            self.boundary = set(BOUNDARY[CURRENT_KERNEL])
         self.models = models or []  # [(regex, handler(ex, state, callee, args, dest_ty) -> Value or None)]
         self.inline = inline or []  # callee-name regexes that may be inlined
         self.unroll = unroll
@@ -919,6 +939,17 @@ class Executor:
                         else:
                             s2.notes.append("inlined %s: %s" % (f.name, status))
                     return out
+        if self.boundary is not None and depth < 5 and norm_callee(callee) not in self.boundary:
+            f = self.resolve_exact(callee, args)
+            if f is not None:
+                self.inlined.add(f.name)
+                out = []
+                for s2, rv, status in self.exec_fn(f, args, st, depth + 1):
+                    if status == "return":
+                        out.append((s2, rv))
+                    else:
+                        s2.notes.append("followed %s: %s" % (f.name, status))
+                return out
         if self.auto_inline and depth < 4 and not any(re.search(rx, callee) for rx in self.keep_opaque):
             f = self.resolve(callee, args)
             if f is not None and len(f.params) == len(args) and sum(1 for b in f.blocks.values() if not b.cleanup) <= self.auto_inline:
@@ -934,6 +965,8 @@ class Executor:
 
     def opaque_call(self, st, callee, args, dest_ty):
         self.opaque_calls.add(re.sub(r"::<.*", "", callee)[:80])
+        if CURRENT_KERNEL:
+            SEEN_OPAQUE.setdefault(CURRENT_KERNEL, set()).add(norm_callee(callee))
         rv = self.ctx.fresh_value(dest_ty or "()", "ret." + re.sub(r"<.*", "", callee).split("::")[-1][:30])
         if isinstance(rv, Scalar) and rv.sort == ("bv", 64, False) and re.search(r"(^|::|>::)len$", re.sub(r"::<[^>]*>", "", callee)):
             # lengths of slices, strings and vectors never exceed isize::MAX (allocation limit of the language)
@@ -962,6 +995,27 @@ class Executor:
                 break
             n += 1
         return v
+
+    def resolve_exact(self, callee, args):
+        """A crate-local function named exactly like the callee: a free function (`helper`, `module::helper`) or an
+        inherent method `Type::method` whose impl block is unique.  Trait-method paths (`<T as Trait>::m`) and anything
+        ambiguous are not resolved."""
+        name = callee.strip()
+        if name.startswith("<") or " as " in name:
+            return None
+        name = re.sub(r"::<[^(]*>$", "", name)
+        name = re.sub(r"::<.*?>", "", name)
+        cands = [f for f in self.ctx.by_name.get(name, []) if f.text and f.text[0].startswith("fn ")]
+        if len(cands) == 1 and len(cands[0].params) == len(args):
+            return cands[0]
+        parts = name.split("::")
+        if len(parts) >= 2 and not cands:
+            ty, meth = parts[-2], parts[-1]
+            found = [f for f in self.ctx.funcs if f.name.endswith(">::" + meth) and "<impl at" in f.name and len(f.params) == len(args) and f.params
+                     and re.search(r"(^|[^A-Za-z0-9_])%s($|[^A-Za-z0-9_])" % re.escape(ty), f.params[0][1].split("<")[0] + " " + f.ret.split("<")[0])]
+            if len(found) == 1:
+                return found[0]
+        return None
 
     def resolve(self, callee, args):
         name0 = callee.strip()
